@@ -256,17 +256,19 @@ def check(col: Collector, tier: str):
                         (isinstance(t.ops[0], ast.NotEq) and truth) or (isinstance(t.ops[0], ast.Eq) and not truth)):
                     raw = [t.left, t.comparators[0]]
 
+                    cur_forms = (f"{u}.parent", f"{u}.absolute().parent", f"{u}.parent.absolute()")      # the file's own directory (absolute or as given)
+
                     def is_current(e):
-                        if src(e) == f"{u}.parent":
+                        if src(e) in cur_forms:
                             return True
                         if isinstance(e, ast.Name):
                             vals = [n.value for n in ast.walk(lp) if isinstance(n, ast.Assign) and src(n.targets[0]) == e.id]
-                            return len(vals) == 1 and src(vals[0]) == f"{u}.parent"
+                            return len(vals) == 1 and src(vals[0]) in cur_forms
                         return False
 
                     for cur_side, other in ((raw[0], raw[1]), (raw[1], raw[0])):
                         if is_current(cur_side) and isinstance(other, ast.Name) and src(other) != src(cur_side) and \
-                                (src(cur_side) == f"{u}.parent" or not is_current(other)):
+                                (src(cur_side) in cur_forms or not is_current(other)):
                             # the other side is the remembered first directory: assigned from the current parent in the loop
                             rem = [n for n in ast.walk(lp) if isinstance(n, ast.Assign) and src(n.targets[0]) == other.id
                                    and (is_current(n.value))]
@@ -402,6 +404,18 @@ def check_run_shape(col: Collector, repo: Repo, ex, run_dir_var):
             f"package must be mounted read-only at /scripts and read-write at /results (mounts: {mounts})", loc)
     col.add("C17.R3", ex.short, "mount:/data-ro-is-the-files'-directory", len(data) == 1 and data[0][0] == "datafile_dir",
             f"the data files' directory must be mounted read-only at /data (found {data})", loc)
+    # the directory that is mounted: docker reads a bind-mount source that is not an absolute path as the NAME of a volume, so the directory
+    # must be made absolute; and it must be the directory of the very path whose .name is listed in filelist.txt - resolve() follows a
+    # symbolic link into another directory, where the link's own name need not exist
+    dd = [n.value for n in ast.walk(fn) if isinstance(n, ast.Assign) and len(n.targets) == 1 and src(n.targets[0]) == "datafile_dir" and src(n.value) != "None"]
+    from sa.props._tr import deep as _deep
+    dsrc = [src(_deep(fn, d)) for d in dd]
+    files_loop = [n for n in walk_no_nested(fn) if isinstance(n, ast.For) and src(n.iter) == "self.files"]
+    uvar = src(files_loop[0].target) if len(files_loop) == 1 else "?"
+    absolute = bool(dsrc) and all(t in (f"{uvar}.absolute().parent", f"{uvar}.parent.absolute()") for t in dsrc)
+    col.add("C17.R3", ex.short, "data-directory-mounted-by-absolute-path", absolute,
+            f"the /data mount source is {dsrc}: it must be the absolute directory of the listed file (<file>.absolute().parent) - a relative "
+            "directory is taken by docker for a volume name, a resolve()d one need not contain the listed name", loc)
     # output_path is the run dir: write_cpp_files(..., run dir) returns ExecutionInfo(output_path=run dir) - checked in R2 + C02
     # cache volumes: one appended entry per docker_cache_volume()
     ok = False
